@@ -166,10 +166,20 @@ def run_embed(case, res):
             if name.startswith("enum:"):
                 continue
             Q = fp.QCLS[name]
-            try:
-                text = STMT_EMBED[pos[5:]](Q, Interval(**kw)).get_sql(Q.SQL_CONTEXT)
-            except Exception as e:
-                text = "!" + type(e).__name__
+            texts = []
+            # every way of rendering a statement built through the dialect's query class
+            for mode in (lambda o: o.get_sql(Q.SQL_CONTEXT), lambda o: str(o), lambda o: o.get_sql(), lambda o: o.get_parameterized_sql()[0],
+                         lambda o: fp.render_param(o, Q.SQL_CONTEXT)[0]):
+                try:
+                    texts.append(mode(STMT_EMBED[pos[5:]](Q, Interval(**kw))))
+                except Exception as e:
+                    texts.append("!" + type(e).__name__)
+            text = texts[0]
+            for alt in texts[1:]:
+                lits_alt = EXTRACT[form].findall(alt)
+                if len(lits_alt) != 1 or ref_read(lits_alt[0], form) != exp:
+                    text = alt  # report the deviating mode below
+                    break
         else:
             try:
                 text = EMBED[pos](Interval(**kw)).get_sql(ctx)
